@@ -155,6 +155,10 @@ func (f *Font) MakeGlyphNames() []string {
 					replLoop:
 						for _, lig := range subtable.Repl[idx] {
 							nn = nn[:1]
+							if glyphNames[lig.Out] != "" {
+								// keep existing names
+								continue
+							}
 							for _, gid := range lig.In {
 								if name := glyphNames[gid]; name != "" {
 									nn = append(nn, name)
